@@ -271,6 +271,30 @@ func c02Run(c *Ctx) {
 			X: map[string]string{"op": op, "ka": "randint", "kb": "randint"}}
 		c02Judge(c, cs)
 	}
+	// 5''. an operator error never yields a value — also when the operator sits in the body of a user function, a chain of
+	// returns, a loop or a block, and the call is the operand of a print, an element, an argument, an initialiser
+	for _, f := range []string{"a / b", "a % b", "a << (b - 1)", "a >> (b - 1)", `a - "x"`, "a & 0.5", "-nil", "a < nil", `a * "3x"`} {
+		defs := Lines(Fun("op", "a, b", " "+Ret(f)+" "), Fun("via", "a, b", " "+Ret("op(a, b)")+" "), Fun("inloop", "a, b", " "+While(True(), "{ { "+Ret(f)+" } }")+" "), Fun("stmt", "a, b", " "+Var("t", f)+" "+Ret("t")+" "))
+		for _, fn := range []string{"op", "via", "inloop", "stmt"} {
+			call := fn + "(10, 0)"
+			for _, use := range []string{Print(call), Print("[" + call + "]"), Print("[1, " + call + ", 2]"), Print("{k: " + call + "}"), Var("r", call) + " " + Print("r"), call + ";", Print(BI("len", "["+call+"]")), Print("1 + " + call), Print(call + " == nil"), Print("idf(" + call + ")")} {
+				if c.Mine() {
+					c02Judge(c, &Case{Gen: "faults-in-functions", Src: defs + Fun("idf", "v", " "+Ret("v")+" ") + "\n" + Print(`"before"`) + "\n" + use + "\n" + Print(`"AFTER"`) + "\n", X: map[string]string{"op": "fault-in-function"}})
+				}
+			}
+		}
+	}
+	// 5'. every ordered pair of binary operators without parentheses, on operands for which the two groupings differ:
+	// each operator gets the operands the documented nesting gives it
+	for _, o1 := range c02BinOps {
+		for _, o2 := range c02BinOps {
+			for _, tri := range [][3]string{{"9", "4", "2"}, {"6", "3", "1"}, {"12", "10", "6"}, {"2", "3", "2"}, {"100", "7", "3"}} {
+				if c.Mine() {
+					c02Judge(c, &Case{Gen: "nested-minimal-parens", Src: Print(tri[0]+" "+o1+" "+tri[1]+" "+o2+" "+tri[2]) + "\n", X: map[string]string{"op": "nested"}})
+				}
+			}
+		}
+	}
 	// 6. random nested expressions
 	r = c.Rand("nested")
 	n = c.N(10000, 2000000)
